@@ -375,10 +375,27 @@ var _ = io.EOF
 // one reader (whose 512-byte window is refilled while frames are being parsed), in generated chunkings.
 func TestC01StreamRoundTrip(t *testing.T) {
 	rec := evid.New(t, "C01", "2..12 generated frames (biased to long payloads) written by one frame.Writer into one byte stream == concatenation of the reference layouts; one frame.Reader reads the stream back in generated chunkings and must return each frame equal field for field; non-trivial = stream longer than the reader's 512-byte window; distinct by hash of the stream")
-	rec.Require("longer-than-window")
+	rec.Require("longer-than-window", "reader-holding-the-key-first-timestamp-below-the-window-length", "reader-holding-the-key-ordinary-timestamps")
 	evid.Check(t, rec, evid.N(15000, 80000), func(t *rapid.T) {
 		drawBufSize(t)
 		n := rapid.IntRange(2, 12).Draw(t, "n")
+		// one case in three: every frame is signed with one key, stamped in non-decreasing order from a start that may
+		// lie in the first ten seconds of the 48-bit range, and the reader holds that key
+		var key *frame.V2Key
+		var refKey [32]byte
+		ts := uint64(0)
+		keyedCls := ""
+		if rapid.IntRange(0, 2).Draw(t, "reader_holds_key") == 0 {
+			copy(refKey[:], gen.Bytes(t, 32, "key"))
+			key = frame.NewV2Key(refKey[:])
+			if rapid.Bool().Draw(t, "small_start") {
+				ts = uint64(rapid.IntRange(1, 999999).Draw(t, "ts_start_small"))
+				keyedCls = "reader-holding-the-key-first-timestamp-below-the-window-length"
+			} else {
+				ts = gen.Timestamp48().Draw(t, "ts_start")
+				keyedCls = "reader-holding-the-key-ordinary-timestamps"
+			}
+		}
 		w := &recWriter{}
 		fw := &frame.Writer{ByteWriter: w}
 		if err := fw.Initialize(); err != nil {
@@ -387,9 +404,23 @@ func TestC01StreamRoundTrip(t *testing.T) {
 		var frames []ref.Frame
 		var want []byte
 		for i := 0; i < n; i++ {
-			f := gen.RawFrame(t, gen.FrameOpts{})
+			o := gen.FrameOpts{}
+			if key != nil {
+				o = gen.FrameOpts{Version: 2, Signed: 2}
+			}
+			f := gen.RawFrame(t, o)
 			if rapid.Bool().Draw(t, "long") {
 				f.Payload = gen.Bytes(t, rapid.IntRange(200, 255).Draw(t, "plen_long"), "payload_long")
+			}
+			if key != nil {
+				if i > 0 {
+					ts += uint64(rapid.IntRange(0, 2500000).Draw(t, "ts_step"))
+				}
+				if ts >= 1<<48 {
+					ts = 1<<48 - 1
+				}
+				f.Timestamp = ts
+				f.Sig = f.SignatureFor(refKey)
 			}
 			if err := fw.Write(gen.ToLib(f)); err != nil {
 				t.Fatalf("write %d failed: %v", i, err)
@@ -401,7 +432,7 @@ func TestC01StreamRoundTrip(t *testing.T) {
 			t.Fatalf("stream differs from the concatenated reference layouts")
 		}
 		sizes := rapid.SliceOfN(rapid.OneOf(rapid.IntRange(1, 40), rapid.IntRange(100, 700)), 0, 30).Draw(t, "chunks")
-		res, terr, herr := readAll(&chunkReader{data: want, sizes: sizes, failAt: -1}, nil, nil, len(want)+2)
+		res, terr, herr := readAll(&chunkReader{data: want, sizes: sizes, failAt: -1}, nil, key, len(want)+2)
 		if herr != nil || terr != io.EOF {
 			t.Fatalf("reading back: %v / %v", herr, terr)
 		}
@@ -410,7 +441,10 @@ func TestC01StreamRoundTrip(t *testing.T) {
 		}
 		for i, r := range res {
 			if r.err != nil {
-				t.Fatalf("frame %d read back as error %v", i, r.err)
+				if key != nil {
+					evid.ReplayNote("C01", "TestC01StreamRoundTrip", fmt.Sprintf("reader holding the key, frames stamped in non-decreasing order from %d: frame %d (timestamp %d) read back as error %v", frames[0].Timestamp, i, frames[i].Timestamp, r.err))
+				}
+				t.Fatalf("frame %d (timestamp %d, first %d, reader holds the key: %v) read back as error %v", i, frames[i].Timestamp, frames[0].Timestamp, key != nil, r.err)
 			}
 			g, _, err := gen.FromLib(r.fr)
 			if err != nil || !gen.SameFrame(g, frames[i]) {
@@ -421,6 +455,9 @@ func TestC01StreamRoundTrip(t *testing.T) {
 		var cls []string
 		if len(want) > 512 {
 			cls = append(cls, "longer-than-window")
+		}
+		if keyedCls != "" {
+			cls = append(cls, keyedCls)
 		}
 		rec.Case(len(want) > 512, evid.Hash(want, []byte(fmt.Sprint(sizes))), cls...)
 		if len(want) > 512 && rec.WantSample("stream") {
